@@ -28,6 +28,9 @@ let () = each_line (fun l ->
     let mid = List.length a.rules <= 9 && List.length b.rules <= 14 && per_sym <= 3 in
     let cache_model = if mid then downc_incl false a b (nat_of_int 12) else None in
     let shared_model = if mid then downc_incl true a b (nat_of_int 12) else None in
+    (* the implication cache of the opt selections (antecedents / consequents: proved exact) and its careless variant (refuted) *)
+    let opt_model = if mid then downo_incl false a b (nat_of_int 12) else None in
+    let careless_model = if mid then downo_incl true a b (nat_of_int 12) else None in
     let fails = ref [] in
     List.iteri (fun i v ->
       let ok = (match v with "0" -> gate_verdict a b false | "1" -> gate_verdict a b true | "T" -> true (* time limit: inconclusive *) | _ -> false) in
@@ -39,7 +42,8 @@ let () = each_line (fun l ->
     if not (ta_same a ia && ta_same b ib) then fails := "operand_changed" :: !fails;
     let drift = (if prepared_shape sa sb n then [] else ["sanitize_shape"]) @ (if up_ac a b = truth then [] else ["antichain_model"])
       @ (match down_model with Some v -> if v = truth then [] else ["down_model"] | None -> [])
-      @ (match cache_model with Some v -> if v = truth then [] else ["down_cache_model"] | None -> []) in
+      @ (match cache_model with Some v -> if v = truth then [] else ["down_cache_model"] | None -> [])
+      @ (match opt_model with Some v -> if v = truth then [] else ["down_opt_model"] | None -> []) in
     (if !fails = [] then "OK" else "FAIL " ^ String.concat "," (List.rev !fails))
     ^ (if drift = [] then "" else " DRIFT " ^ String.concat "," drift)
     ^ (if truth then " included" else " notincluded")
@@ -47,5 +51,6 @@ let () = each_line (fun l ->
     ^ (if List.mem "T" vs || List.mem "T" rs then " timeout" else "")
     ^ (if a.rules <> [] && a.rules = b.rules then " shared_table" else "")
     ^ (match shared_model with Some v when v <> truth -> " discriminates_shared_cache" | _ -> "")
+    ^ (match careless_model with Some v when v <> truth -> " discriminates_careless_promotion" | _ -> "")
     ^ (if small then (match down_model with None -> " down_model_out_of_fuel" | Some _ -> " down_model_run") else "")
   | _ -> "FAIL exception " ^ o)
